@@ -128,7 +128,7 @@ var proxiesB = []proxyB{
 }
 
 func (p proxyB) authenticated() bool { return p.VNS != "" }
-func (p proxyB) user() string         { return "system:serviceaccount:" + p.VNS + ":" + p.VSA }
+func (p proxyB) user() string        { return "system:serviceaccount:" + p.VNS + ":" + p.VSA }
 
 // ---- RBAC of the fake API server (answers SubjectAccessReviews)
 
